@@ -221,19 +221,34 @@ func Replay(h Harness, o Options, choices []int) ([]Viol, []string, Outcome) {
 // confirmAndReport re-executes a violating schedule 5 times; the same violation keys must
 // come back every time, otherwise the harness is broken (exit 2), never a VIOLATION.
 func confirmAndReport(h Harness, o Options, viols []Viol, choices []int) int {
-	want := violKeys(viols)
+	// the replay always runs to completion (the exploring execution may have been cut by
+	// pruning right after an invariant violation), so it must show at least the same keys
+	want := map[string]bool{}
+	for _, x := range viols {
+		want[x.Key] = true
+	}
 	var trace []string
+	all := viols
 	for k := 0; k < 5; k++ {
 		v, log, _ := Replay(h, o, choices)
 		trace = log
-		if got := violKeys(v); got != want {
-			fmt.Fprintf(os.Stderr, "verifmc: violation not reproducible on replay %d (harness %s): first %q, now %q\nchoices %v\n", k, h.Name, want, got, choices)
-			os.Exit(2)
+		got := map[string]bool{}
+		for _, x := range v {
+			got[x.Key] = true
+		}
+		for key := range want {
+			if !got[key] {
+				fmt.Fprintf(os.Stderr, "verifmc: violation %q not reproducible on replay %d (harness %s): replay shows %q\nchoices %v\n", key, k, h.Name, violKeys(v), choices)
+				os.Exit(2)
+			}
+		}
+		if k == 0 {
+			all = append(all, v...)
 		}
 	}
 	n := 0
 	seen := map[string]bool{}
-	for _, v := range viols {
+	for _, v := range all {
 		if seen[v.Key] {
 			continue
 		}
